@@ -35,7 +35,7 @@ DISCM = "msmart.discover."
 CLOUDM = "msmart.cloud."
 
 PROPS = {
-    "C01": {"targets": [V3 + ".__init__", LANM + "_LanProtocol.__init__", AC + ".__init__", LANC + ".__init__", "C01.spec_decoders_invert", "msmart.lan._LanProtocol.data_received#v2_segmentation",
+    "C01": {"targets": [LANM + "_LanProtocol.connection_made", LANM + "_LanProtocol.connection_lost", V3 + ".__init__", LANM + "_LanProtocol.__init__", AC + ".__init__", LANC + ".__init__", "C01.spec_decoders_invert", "msmart.lan._LanProtocol.data_received#v2_segmentation",
                         (AC + ".apply", r"c10\.|control_first|noraise"), CMD + "SetStateCommand.tobytes", CMD + "Command.tobytes", "msmart.frame.Frame.tobytes",
                         AC + "._send_command_get_responses", DEVB + "._send_command#transport", LANC + ".send", LANC + "._read",
                         LANM + "_Packet.encode", LANM + "_Packet.decode", LANM + "_Packet.decode#interop",
@@ -61,12 +61,12 @@ PROPS = {
                         V3 + "._process_packet#interop", V3 + ".write"], "level": "proof"},
     "C06": {"targets": [V3 + ".__init__", LANC + ".authenticate#hex_credentials", V3 + "._process_packet", V3 + ".read", V3 + "._encode_handshake_request", V3 + "._get_local_key", V3 + "._get_local_key#genuine", V3 + ".authenticate",
                         LANM + "_LanProtocol._flush", V3 + ".write", LANC + ".authenticate", DEVB + ".authenticate"], "level": "proof"},
-    "C07": {"targets": [LANC + ".__init__", LANC + ".max_connection_lifetime!setter", V3 + ".__init__", LANM + "_LanProtocol.__init__", V3 + ".write", LANM + "_LanProtocol.write", V3 + ".authenticate", V3 + ".authenticated", LANM + "_LanProtocol.alive",
+    "C07": {"targets": [LANM + "_LanProtocol.connection_made", LANM + "_LanProtocol.connection_lost", LANC + ".__init__", LANC + ".max_connection_lifetime!setter", V3 + ".__init__", LANM + "_LanProtocol.__init__", V3 + ".write", LANM + "_LanProtocol.write", V3 + ".authenticate", V3 + ".authenticated", LANM + "_LanProtocol.alive",
                         LANC + "._alive", LANC + "._connect", LANC + "._disconnect", LANC + ".authenticate", LANC + ".send"], "level": "proof"},
-    "C08": {"targets": [V3 + ".__init__", LANM + "_LanProtocol.__init__", LANC + ".__init__", LANC + ".send", LANC + ".authenticate", LANC + "._connect", LANC + "._disconnect", LANC + "._read", V3 + ".read", LANM + "_LanProtocol.read",
+    "C08": {"targets": [LANM + "_LanProtocol.connection_made", LANM + "_LanProtocol.connection_lost", V3 + ".__init__", LANM + "_LanProtocol.__init__", LANC + ".__init__", LANC + ".send", LANC + ".authenticate", LANC + "._connect", LANC + "._disconnect", LANC + "._read", V3 + ".read", LANM + "_LanProtocol.read",
                         LANC + "._read_available", DEVB + "._send_command#transport", "msmart.device.AC.device.AirConditioner.refresh#no_valid_response"],
             "level": "proof"},
-    "C09": {"targets": [V3 + ".__init__", LANM + "_LanProtocol.__init__", LANM + "_Packet.decode", V3 + "._process_packet", V3 + "._decode_encrypted_response", V3 + "._get_local_key",
+    "C09": {"targets": [LANM + "_LanProtocol.connection_made", LANM + "_LanProtocol.connection_lost", V3 + ".__init__", LANM + "_LanProtocol.__init__", LANM + "_Packet.decode", V3 + "._process_packet", V3 + "._decode_encrypted_response", V3 + "._get_local_key",
                         V3 + ".read", LANM + "_LanProtocol.read", LANC + "._read", LANC + "._read_available", LANC + ".send",
                         LANC + ".authenticate", DEVB + "._send_command#transport", DEVB + ".authenticate"], "level": "proof"},
     "C10": {"targets": [AC + ".__init__", AC + ".beep!setter", AC + ".power_state!setter", AC + ".fahrenheit!setter", AC + ".target_temperature!setter", AC + ".operational_mode!setter", AC + ".swing_mode!setter", AC + ".eco!setter", AC + ".turbo!setter", AC + ".freeze_protection!setter", AC + ".sleep!setter", AC + ".follow_me!setter", AC + ".purifier!setter", AC + ".target_humidity!setter", AC + ".aux_mode!setter", AC + ".fan_speed!setter",
